@@ -91,7 +91,7 @@ structure St where
   aname : Name := []
   aval : List Char := []           -- raw value so far (reversed)
   evs : List Ev := []              -- reversed
-  deriving Repr
+  deriving DecidableEq, Repr
 
 def init : St := {}
 
@@ -194,21 +194,24 @@ def declOk (body : List Char) : Bool :=
           | some (s, r4) => (s == ['y','e','s'] || s == ['n','o']) && (dropSpace r4).isEmpty
           | none => false)
 
-/-- effect of completing a start tag (`>`): record the element and descend -/
+/-- effect of completing a start tag (`>`): record the element and descend.  The scratch fields (`name`, `attrs`,
+    `aname`, `aval`, `first`) are cleared whenever the automaton returns to content mode, so that content-mode states
+    are canonical. -/
 def openElem (st : St) : St :=
   { st with mode := .content 0, stack := st.name :: st.stack, rootSeen := true,
-            evs := .open st.name st.attrs.reverse :: st.evs, attrs := [], first := false }
+            evs := .open st.name st.attrs.reverse :: st.evs, name := [], attrs := [], aname := [], aval := [], first := false }
 
 /-- effect of completing an empty-element tag (`/>`) -/
 def emptyElem (st : St) : St :=
   { st with mode := .content 0, rootSeen := true, rootDone := st.rootDone || st.stack.isEmpty,
-            evs := .close :: .open st.name st.attrs.reverse :: st.evs, attrs := [], first := false }
+            evs := .close :: .open st.name st.attrs.reverse :: st.evs,
+            name := [], attrs := [], aname := [], aval := [], first := false }
 
 /-- effect of completing an end tag -/
 def closeElem (st : St) : St :=
   match st.stack with
   | _ :: rest => { st with mode := .content 0, stack := rest, rootDone := st.rootDone || rest.isEmpty,
-                           evs := .close :: st.evs }
+                           evs := .close :: st.evs, first := false }
   | [] => fail st "end tag without open element"
 
 def step (st : St) (c : Char) : St :=
@@ -229,13 +232,13 @@ def step (st : St) (c : Char) : St :=
       else if inCharRange c then { st with mode := .content 0 }
       else fail st "character not allowed in XML"
   | .lt =>
-      if c = '!' then { st with mode := .bang }
+      if isNameStart c then
+        (if st.stack.isEmpty && st.rootSeen then fail st "second root element"
+         else { st with mode := .tagName [c], attrs := [], first := false })
+      else if c = '!' then { st with mode := .bang }
       else if c = '?' then { st with mode := .piTarget [] }
       else if c = '/' then
         (if st.stack.isEmpty then fail st "end tag without open element" else { st with mode := .closeName [], first := false })
-      else if isNameStart c then
-        (if st.stack.isEmpty && st.rootSeen then fail st "second root element"
-         else { st with mode := .tagName [c], attrs := [], first := false })
       else fail st "bad character after <"
   | .bang =>
       if c = '-' then { st with mode := .bangDash, first := false }
@@ -300,11 +303,11 @@ def step (st : St) (c : Char) : St :=
       else if c = '/' then { st with mode := .slash, name := n.reverse }
       else fail st "bad character in element name"
   | .tagSpace ws =>
-      if isSpace c then { st with mode := .tagSpace true }
+      if isNameStart c then
+        (if ws then { st with mode := .attrName [c] } else fail st "whitespace required between attributes")
+      else if isSpace c then { st with mode := .tagSpace true }
       else if c = '>' then openElem st
       else if c = '/' then { st with mode := .slash }
-      else if isNameStart c then
-        (if ws then { st with mode := .attrName [c] } else fail st "whitespace required between attributes")
       else fail st "bad character in start tag"
   | .attrName n =>
       if isNameChar c then { st with mode := .attrName (c :: n) }
@@ -322,7 +325,7 @@ def step (st : St) (c : Char) : St :=
   | .attrVal q =>
       if c = q then
         (if st.attrs.any (fun a => a.1 == st.aname) then fail st "duplicate attribute"
-         else { st with mode := .tagSpace false, attrs := (st.aname, st.aval.reverse) :: st.attrs, aval := [] })
+         else { st with mode := .tagSpace false, attrs := (st.aname, st.aval.reverse) :: st.attrs, aname := [], aval := [] })
       else if c = '<' then fail st "< in attribute value"
       else if c = '&' then { st with mode := .attrRef q [] }
       else if inCharRange c then { st with aval := c :: st.aval }
